@@ -586,3 +586,314 @@ def rule_folds(ctx, rule):
         if bad:
             ctx.report(rule, name + "/fold", bad, where_of(f) if f else None)
     return decided
+
+
+# ------------------------------------------------------------------------------------------------ floor-quotient / floor-remainder
+
+
+def floorq_table(fb, name):
+    """Number::floor_quotient / floor_remainder on two opaque numbers: the tree of Number operations (+ - * / floor) that produces
+    the result"""
+    f = fb.find("values::Number::" + name)
+    a, b = Tok("number", "N"), Tok("number", "D")
+    k = [0]
+
+    def expr(x):
+        if isinstance(x, Tok) and x.kind == "number":
+            return x.tag if not isinstance(x.tag, tuple) else x.tag[1]
+        return None
+
+    def icpt(mc, c, args, tt, g):
+        end = c.rsplit("::", 1)[-1]
+        if c == f.name:
+            return NOT
+        if end in ("add", "sub", "mul", "div") and "std::ops::" in c and len(args) == 2:
+            l, r = expr(args[0]), expr(args[1])
+            if l is None or r is None:
+                return UNKNOWN
+            k[0] += 1
+            t = Tok("number", ("R%d" % k[0], "(%s %s %s)" % ({"add": "+", "sub": "-", "mul": "*", "div": "/"}[end], l, r)))
+            return ok(t) if end == "div" else t
+        if c.endswith("Number::floor") or c.endswith("Number::<R>::floor"):
+            e = expr(args[0])
+            if e is None:
+                return UNKNOWN
+            k[0] += 1
+            return Tok("number", ("R%d" % k[0], "(floor %s)" % e))
+        return NOT
+    mc = Machine(fb, intercept=icpt, max_visits=6)
+    res = mc.run(f, [a, b])
+    got = None
+    if isinstance(res, Enum) and getattr(res, "name", None) == "Ok" and res.fields:
+        got = expr(res.fields[0])
+    elif isinstance(res, Tok):
+        got = expr(res)
+    return f, got, res
+
+
+def rule_floorq(ctx, rule):
+    fb = ctx.fb()
+    from .ctx import where_of
+    want = {"floor_quotient": {"(floor (/ N D))"},
+            "floor_remainder": {"(- N (* (floor (/ N D)) D))", "(- N (* D (floor (/ N D))))"}}
+    decided = 0
+    for name in ("floor_quotient", "floor_remainder"):
+        try:
+            f, got, res = floorq_table(fb, name)
+        except (absint.Stuck, absint.Loop, mir.AnchorMissing) as e:
+            ctx.undecided(rule, name + "/formula", "cannot follow Number::%s (%s)" % (name, e))
+            continue
+        if got is None:
+            ctx.undecided(rule, name + "/formula", "the result of Number::%s is not a tree of Number operations (%r)" % (name, res), where_of(f))
+            continue
+        decided += 1
+        ctx.inst(rule, name + "/formula", {"computes": got})
+        ctx.oblige(got in want[name])
+        if got not in want[name]:
+            ctx.report(rule, name + "/formula", "Number::%s(N, D) computes %s, expected %s" % (name, got, " or ".join(sorted(want[name]))), where_of(f))
+    return decided
+
+
+# ------------------------------------------------------------------------------------------------ division: zero guards
+
+
+def zero_guard_table(fb, fname="<values::Number as std::ops::Div>::div"):
+    """Number / Number on every pair of exact kinds with symbolic components.  Every test of a symbolic value is explored both ways;
+    the compiler's own `divide by zero` / `remainder by zero` assertions are the obligations: on every path that reaches one, the
+    tests passed so far must exclude a zero divisor.  Returns [(kinds, divisor expression, conditions, kind of assertion)]."""
+    from .absint import Sym
+    import itertools
+    nv = dict((n, i) for i, n in fb.variants("values::Number"))
+    f = fb.find(fname)
+    obligations, problems = [], []
+    seen = set()
+    for ka, kb in itertools.product(("Integer", "Rational"), repeat=2):
+        for schedule in itertools.product((True, False), repeat=6):
+            names = iter("abcd")
+            def mknum(kind):
+                if kind == "Integer":
+                    e = Enum(nv["Integer"], [Sym(next(names))])
+                else:
+                    e = Enum(nv["Rational"], [Sym(next(names)), Sym(next(names))])
+                e.name = kind
+                return e
+            A, B = mknum(ka), mknum(kb)
+            dens = set()
+            for e in (A, B):
+                if e.name == "Rational":
+                    dens.add(e.fields[1].op)
+            pc, k = [], [0]
+
+            def symcmp(op, x, y, pc=pc, k=k, schedule=schedule):
+                cf, cb = absint.CUR_F[0], absint.CUR_B[0]
+                term = cf.blocks[cb]["term"] if cf is not None and cb is not None else {}
+                if term.get("k") == "assert" and term.get("kind") in ("DivisionByZero", "RemainderByZero") and op == "eq":
+                    obligations.append(((ka, kb), x if isinstance(x, Sym) else y, list(pc), term["kind"], frozenset(dens), cf.name))
+                    return bool(term.get("expected"))             # go on as the program does when the assertion holds
+                if term.get("k") == "assert":
+                    return bool(term.get("expected"))             # overflow assertions: not this table's subject
+                i = k[0]
+                k[0] += 1
+                val = schedule[i] if i < len(schedule) else True
+                pc.append((op, x, y, val))
+                return val
+            mc = Machine(fb, max_visits=4, budget=400)
+            absint.SYM_COMPARE = symcmp
+            try:
+                mc.run(f, [A, B])
+            except absint.Stuck as e:
+                sig = ("stuck", ka, kb, str(e))
+                if sig not in seen:
+                    seen.add(sig)
+                    problems.append("%s / %s: %s" % (ka, kb, e))
+            except absint.Loop as e:
+                problems.append("%s / %s: %s" % (ka, kb, e))
+            finally:
+                absint.SYM_COMPARE = None
+    return f, obligations, problems
+
+
+def rule_zero_guards(ctx, rule):
+    fb = ctx.fb()
+    from .ctx import where_of
+    import itertools
+    try:
+        f, obl, problems = zero_guard_table(fb)
+    except mir.AnchorMissing as e:
+        ctx.undecided(rule, "div/zero-guards", str(e))
+        return None
+    if problems and not obl:
+        ctx.undecided(rule, "div/zero-guards", "cannot follow the division on symbolic operands (%s)" % problems[0], where_of(f))
+        return None
+    bad = None
+    checked = set()
+    for kinds, divisor, conds, akind, dens, fn in obl:
+        sig = (kinds, repr(divisor), tuple((c[0], repr(c[1]), repr(c[2]), c[3]) for c in conds), akind)
+        if sig in checked:
+            continue
+        checked.add(sig)
+        syms = sorted({x for c in conds for t in (c[1], c[2]) for x in _syms(t)} | set(_syms(divisor)))
+        ranges = [range(1, 4) if sname in dens else range(-2, 3) for sname in syms]
+        for vals in itertools.product(*ranges):
+            env = dict(zip(syms, vals))
+            try:
+                if not all(_holds(c[0], _ev(c[1], env), _ev(c[2], env)) == c[3] for c in conds):
+                    continue
+                dv = _ev(divisor, env)
+            except TypeError:
+                continue
+            if dv == 0 and bad is None:
+                bad = "%s / %s: the i32 %s by %s is reached with the divisor 0 for %s (tests passed on the way: %s)" % (
+                    kinds[0], kinds[1], "division" if akind == "DivisionByZero" else "remainder", repr(divisor), env,
+                    [(c[0], repr(c[1]), repr(c[2]), c[3]) for c in conds])
+    ctx.inst(rule, "div/zero-guards", {"assertions_reached": len(checked), "unfollowed": len(problems)})
+    ctx.oblige(bad is None)
+    if bad:
+        ctx.report(rule, "div/zero-guards", "exact division can divide by zero (a panic instead of the division-by-zero error): " + bad, where_of(f))
+        return False
+    return True if checked and not problems else None
+
+
+def _syms(x):
+    from .absint import Sym
+    if isinstance(x, Sym):
+        if not x.args:
+            return [x.op]
+        out = []
+        for a in x.args:
+            out += _syms(a)
+        return out
+    return []
+
+
+# ------------------------------------------------------------------------------------------------ exact + - * / on the grid
+
+
+def exact_arith_table(fb, fname, n_tests=7):
+    """`fname` (a binary Number operation) on every pair of exact kinds with symbolic components; every test explored both ways.
+    Returns {(ka, kb): [path]} with path = {"conds": [...], "result": abstract value} or {"stuck": why}."""
+    from .absint import Sym
+    import itertools
+    nv = dict((n, i) for i, n in fb.variants("values::Number"))
+    f = fb.find(fname)
+    out = {}
+    for ka, kb in itertools.product(("Integer", "Rational"), repeat=2):
+        paths, seen = [], set()
+        for schedule in itertools.product((True, False), repeat=n_tests):
+            names = iter("abcd")
+
+            def mknum(kind):
+                e = Enum(nv["Integer"], [Sym(next(names))]) if kind == "Integer" else Enum(nv["Rational"], [Sym(next(names)), Sym(next(names))])
+                e.name = kind
+                return e
+            A, B = mknum(ka), mknum(kb)
+            pc, k = [], [0]
+
+            def symcmp(op, x, y, pc=pc, k=k, schedule=schedule):
+                cf, cb = absint.CUR_F[0], absint.CUR_B[0]
+                term = cf.blocks[cb]["term"] if cf is not None and cb is not None else {}
+                if term.get("k") == "assert":
+                    return bool(term.get("expected"))
+                i = k[0]
+                k[0] += 1
+                if i >= len(schedule):
+                    raise absint.Stuck("more than %d tests on symbolic values on one path" % len(schedule))
+                pc.append((op, x, y, schedule[i]))
+                return schedule[i]
+            mc = Machine(fb, max_visits=4, budget=400)
+            absint.SYM_COMPARE = symcmp
+            try:
+                res = mc.run(f, [A, B])
+            except (absint.Stuck, absint.Loop) as e:
+                sig = ("stuck", str(e))
+                if sig not in seen:
+                    seen.add(sig)
+                    paths.append({"stuck": str(e)})
+                continue
+            finally:
+                absint.SYM_COMPARE = None
+            if k[0] < len(schedule) and any(schedule[k[0]:]):
+                continue                                   # the unused tail of the schedule: one representative is enough
+            sig = (tuple((c[0], repr(c[1]), repr(c[2]), c[3]) for c in pc), repr(res))
+            if sig in seen:
+                continue
+            seen.add(sig)
+            paths.append({"conds": list(pc), "result": res, "dens": [e.fields[1].op for e in (A, B) if e.name == "Rational"]})
+        out[(ka, kb)] = paths
+    return f, out
+
+
+NAMES = {"+": "add", "-": "sub", "*": "mul", "/": "div"}
+
+
+def rule_exact_arith(ctx, rule, ops):
+    """ops: {'+': fname, ...}.  On the grid numerators -2..2 / denominators 1..3 every path's result is the exact result: an exact
+    number of the right value with a positive denominator; division by an exact zero is an error and nothing else is."""
+    fb = ctx.fb()
+    from .ctx import where_of
+    from fractions import Fraction
+    from .absint import Sym
+    import itertools
+    nv = dict((n, i) for i, n in fb.variants("values::Number"))
+    decided = 0
+    for opn, fname in ops.items():
+        try:
+            f, table = exact_arith_table(fb, fname)
+        except mir.AnchorMissing as e:
+            ctx.undecided(rule, opn, str(e))
+            continue
+        bad = None
+        stuck = 0
+        rows = 0
+        for (ka, kb), paths in table.items():
+            good = [p for p in paths if "stuck" not in p]
+            stuck += len(paths) - len(good)
+            if not good:
+                continue
+            syms = ["a"] + (["b"] if ka == "Rational" else [])
+            syms += [chr(ord(syms[-1]) + 1)] + ([chr(ord(syms[-1]) + 2)] if kb == "Rational" else [])
+            dens = set(good[0]["dens"])
+            for vals in itertools.product(*[range(1, 4) if s_ in dens else range(-2, 3) for s_ in syms]):
+                env = dict(zip(syms, vals))
+                x = Fraction(env["a"], env["b"]) if ka == "Rational" else Fraction(env["a"])
+                rest = syms[2:] if ka == "Rational" else syms[1:]
+                y = Fraction(env[rest[0]], env[rest[1]]) if kb == "Rational" else Fraction(env[rest[0]])
+                want = "error" if (opn == "/" and y == 0) else {"+": lambda: x + y, "-": lambda: x - y, "*": lambda: x * y, "/": lambda: x / y}[opn]()
+                hit = []
+                for p in good:
+                    try:
+                        if all(_holds(c[0], _ev(c[1], env), _ev(c[2], env)) == c[3] for c in p["conds"]):
+                            hit.append(p)
+                    except TypeError:
+                        pass
+                if not hit:
+                    continue                                   # the paths that cover it were not followed: undecided for this point
+                rows += 1
+                res = hit[0]["result"]
+                got = None
+                val = res
+                if isinstance(res, Enum) and getattr(res, "name", None) in ("Ok", "Err"):
+                    got = "error" if res.name == "Err" else None
+                    val = res.fields[0] if res.fields else None
+                if got is None and isinstance(val, Enum):
+                    comps = [_ev(c_, env) if isinstance(c_, (Sym, int)) else None for c_ in val.fields]
+                    if val.variant == nv["Integer"] and len(comps) == 1 and comps[0] is not None:
+                        got = Fraction(comps[0])
+                    elif val.variant == nv["Rational"] and len(comps) == 2 and None not in comps:
+                        got = ("nonpositive-denominator", comps) if comps[1] <= 0 else Fraction(comps[0], comps[1])
+                    elif val.variant == nv.get("Real"):
+                        got = "inexact"
+                if got != want and bad is None:
+                    def lit(k_, r):
+                        return ("%d/%d" % (env[r[0]], env[r[1]])) if k_ == "Rational" else str(env[r[0]])
+                    bad = "(%s %s %s) gives %s, the exact result is %s (tests on the way: %s)" % (
+                        opn, lit(ka, syms), lit(kb, rest), got, want, [(c[0], repr(c[1]), repr(c[2]), c[3]) for c in hit[0]["conds"]])
+        if rows:
+            decided += 1
+        ctx.inst(rule, NAMES.get(opn, opn) + "/grid", {"points": rows, "paths_not_followed": stuck})
+        if stuck and not rows:
+            ctx.undecided(rule, NAMES.get(opn, opn) + "/grid", "cannot follow %s on symbolic exact operands" % fname, where_of(f))
+        ctx.oblige(bad is None)
+        if bad:
+            ctx.report(rule, NAMES.get(opn, opn) + "/grid", "exact arithmetic is not exact: " + bad, where_of(f))
+    return decided
